@@ -161,6 +161,51 @@ def run_filter(ctx, corr, binp, drv, maxp, maxn):
     corr.distribution['set-filter p<=%d x set of all names<=%d' % (maxp, maxn)] = len(g)
 
 
+def run_sweep(ctx, corr, binp, drv):
+    """class-shaped patterns over all printable ASCII (see harness/c17 sweep)"""
+    def one(sh):
+        fi = os.path.join(ctx.dir, 'sweep_%d.in' % sh)
+        fo = os.path.join(ctx.dir, 'sweep_%d.go' % sh)
+        fm = os.path.join(ctx.dir, 'sweep_%d.ml' % sh)
+        rc, o = ctx.run([binp, 'sweep', str(sh), str(NSH), fi, fo])
+        if rc != 0:
+            raise V.BuildError('c17 sweep failed: ' + o[-1500:])
+        rc, o = ctx.run('%s lines < %s > %s' % (drv, fi, fm), timeout=1800)
+        if rc != 0:
+            raise V.BuildError('glob_driver lines (sweep) failed: ' + o[-1500:])
+        g = open(fo, 'rb').read()
+        m = open(fm, 'rb').read()
+        bad = []
+        if len(m) != 5 * len(g):
+            raise V.BuildError('sweep shard %d: %d implementation results, %d model bytes' % (sh, len(g), len(m)))
+        mm, ms = m[0::5], m[1::5]
+        if g != mm or g != ms:
+            lines = open(fi).read().split('\n')
+            for j in range(len(g)):
+                if g[j] != mm[j] or (chr(g[j]) == 'M') != (chr(ms[j]) == 'M'):
+                    bad.append((lines[j], chr(g[j]), chr(mm[j]), chr(ms[j])))
+                    if len(bad) >= 40:
+                        break
+        for f in (fi, fo, fm):
+            os.remove(f)
+        return len(g), bad
+
+    with ThreadPoolExecutor(NSH) as ex:
+        res = list(ex.map(one, range(NSH)))
+    total = sum(r[0] for r in res)
+    bad = sorted(b for r in res for b in r[1])
+    # report well-formed-looking short ones first
+    bad.sort(key=lambda b: (len(b[0]), b[0]))
+    for i, (line, gi, mi, si) in enumerate(bad[:20]):
+        ph, nh = line.split(' ')
+        p = bytes.fromhex(ph) if ph != '-' else b''
+        nm = bytes.fromhex(nh) if nh != '-' else b''
+        compare(corr, 'class-sweep-printable', 3 * 10 ** 9 + i, p, nm, gi, mi, si)
+    corr.evaluations += total
+    corr.distinct_nontrivial += total
+    corr.distribution['class-sweep-printable'] = total
+
+
 def run_rand(ctx, corr, binp, drv, n):
     fin, fout = os.path.join(ctx.dir, 'rand.in'), os.path.join(ctx.dir, 'rand.out')
     rc, o = ctx.run([binp, 'rand', str(n), fin, fout])
@@ -232,6 +277,7 @@ def correspondence(ctx):
         raise V.BuildError('glob_driver was not built')
     run_rand(ctx, corr, binp, drv, 30000 if ctx.tier == 'quick' else 300000)
     run_filter(ctx, corr, binp, drv, 3, 3)
+    run_sweep(ctx, corr, binp, drv)
     if ctx.tier == 'quick':
         run_enum(ctx, corr, binp, drv, 0, 4, 4, 'q')
     else:
@@ -240,8 +286,10 @@ def correspondence(ctx):
     corr.exhaustive = True
     corr.rule = ("exhaustive: every pattern of length <= 4 (thorough: <= 5, and length 6 against names <= 3) over {a b * ? [ ] ^ - \\ /} "
                  "x every name of length <= 4 over {a b / -}, three-valued result of match() vs extracted model vs extracted spec; "
-                 "Set.Filter on the set of all names <= 3 for every pattern <= 3; random pairs (fixed regression corpus first): ASCII and "
-                 "UTF-8 token patterns with a name derived from the pattern and then mutated, star followed by single-character terms "
+                 "Set.Filter on the set of all names <= 3 for every pattern <= 3; class sweep: [B] [^B] *[B] with B = x, xy, xyz, x over all 95 printable "
+                 "ASCII characters, y and z over {a - / ] ^ ! \\}, against the empty name, every single printable character and every "
+                 "two-character name over that small set; random pairs (fixed regression corpus first): ASCII (letters plus the punctuation "
+                 "that shells/fnmatch treat specially: ! { } , ~ + @ ( ) | ...) and UTF-8 token patterns with a name derived from the pattern and then mutated, star followed by single-character terms "
                  "against multi-byte names (F17 shape), ill-formed bytes in names, malformed pattern pieces, ill-formed bytes in patterns. "
                  "distinct = distinct (pattern, name); non-trivial = the pattern contains one of * ? [ \\")
     return corr
